@@ -12,7 +12,7 @@ COMMENT_BODIES = [" comment", "", " it's", ' say "hi', " x = 1", "$omp parallel"
 
 DEFAULTS = dict(wrap=72, p_comment=0.1, p_blank=0.04, p_between=0.15, p_inline=0.08, p_zero_col6=0.0,
                 p_extra_break=0.15, comments=True, p_semi=0.0, label_align="random", indent_body=True,
-                p_case=0.0)
+                p_case=0.0, p_head_break=0.06)
 
 
 def render(P, rng, opts=None):
@@ -68,9 +68,24 @@ def render(P, rng, opts=None):
         # cut the body into chunks
         chunks = []
         rest = body
+        head = None
+        r2 = _random.Random(base * 7919 + 17 * (st.oid if st.oid is not None else i) + 5)   # separate stream: older layouts keep their shape
+        if r2.random() < o["p_head_break"]:
+            # the first line ends right after (or inside) one of the statement's leading tokens
+            from .lexer import lex_spans
+            try:
+                ends = [b for (_, _, a, b) in lex_spans(body)[:5] if 0 < b < len(body)]
+            except Exception:
+                ends = []
+            if ends:
+                head = r2.choice(ends) - (1 if r2.random() < 0.25 else 0)
+                if head < 1 or head > width:
+                    head = None
         while True:
             w = width
-            if len(rest) > 8 and r.random() < o["p_extra_break"]:
+            if head is not None:
+                w, head = head, None
+            elif len(rest) > 8 and r.random() < o["p_extra_break"]:
                 w = r.randint(3, min(width, len(rest) - 1))
             if len(rest) <= w or not rest.strip():
                 chunks.append(rest)
